@@ -7,7 +7,7 @@ use_formula_memo()
 
 POOL = ["x", "y", "q"]
 OPS = ["new_cells", "set ref", "new_space", "delete", "rename cells", "B.add_bases(A)", "B.remove_bases(A)", "model ref", "model space",
-       "set_ref absolute", "rename space", "model.new_space('N', bases=[A, B2]) / [B, B2] when B inherits A", "A.add_bases(Z) (A may have sub spaces B, B2)"]
+       "set_ref absolute", "rename space", "model.new_space('N', bases=[A, B2]) / [B, B2] when B inherits A", "A.add_bases(Z) (A may have sub spaces B, B2)", "new_cells without a name (named after its def)"]
 SPECIAL = {"__builtins__", "_model", "_self", "_space"}
 
 
@@ -93,6 +93,8 @@ def _do(m, op, tgt, ni, v, inh=False):
         return call(lambda: sp.spaces[name].rename(POOL[(ni + 1) % 3]))
     if op == 12:
         return call(m.spaces["A"].add_bases, m.spaces["Z"])
+    if op == 13:
+        return call(sp.new_cells, formula="def %s():\n    return 1\n" % name)
     if op == 11:
         first = m.spaces["B"] if inh else m.spaces["A"]
         return call(m.new_space, "N", bases=[first, m.spaces["B2"]])
@@ -145,8 +147,85 @@ QUERIES = [
           natives=[dict(v=5, inh=i, o1=a, t1=ta, n1=na, o2=b, t2=tb, n2=nb, o3=c, t3=0, n3=0) for (i, a, ta, na, b, tb, nb, c) in
                    ((True, 0, 0, 0, 1, 1, 0, -1), (False, 1, 1, 0, 0, 0, 0, 5), (True, 2, 0, 1, 0, 1, 1, -1), (False, 7, 0, 0, 0, 0, 0, 3),
                     (True, 0, 0, 0, 4, 0, 0, 6), (False, 8, 0, 0, 7, 0, 0, -1), (True, 1, 0, 2, 3, 0, 2, 1), (False, 2, 1, 0, 10, 1, 0, -1),
-                    (False, 0, 0, 0, 1, 3, 0, 11), (True, 0, 1, 0, 1, 3, 0, 0), (True, 0, 1, 0, 7, 0, 0, 1), (True, 1, 1, 0, 0, 4, 0, 12), (True, 0, 4, 0, 2, 3, 0, 12))],
+                    (False, 0, 0, 0, 1, 3, 0, 11), (True, 0, 1, 0, 1, 3, 0, 0), (True, 0, 1, 0, 7, 0, 0, 1), (True, 1, 1, 0, 0, 4, 0, 12), (True, 0, 4, 0, 2, 3, 0, 12), (True, 1, 0, 0, 13, 0, 0, -1), (True, 1, 1, 0, 13, 0, 0, -1), (False, 2, 0, 0, 13, 0, 0, 3))],
           bounds=lambda tier: {"spaces": "A, A.Ch, B, B2 (B and B2 inherit A or not), Z (can become a base of A)", "name_pool": POOL, "symmetry": "first operation uses name x, second x or y (names are interchangeable)", "operations": OPS, "history_length": 2 if tier == "quick" else 3},
           outside=["histories longer than 3", "names outside the pool", "ItemSpaces"]),
 ]
+LOCS = ["own reference of P", "own reference of the child space P.PC", "reference of P's base (derived in P)", "no space-level reference"]
+FOLLOW = ["nothing", "space-level reference re-assigned", "space-level reference deleted"]
+
+
+@harness
+def precedence(v: int, w: int, v2: int, loc: int, first: bool, follow: int) -> bool:
+    """A model-level reference x and a space-level reference x: in the space, in spaces deriving it, in its child space and in
+    every ItemSpace built from them the name denotes the SPACE-level value (attribute access, refs, formulas), is listed once,
+    and falls back to the model-level value when the space-level one is deleted."""
+    loc, first, follow = pick(loc, 0, 3), pickb(first), pick(follow, 0, 2)
+    label("%s; model-level reference created %s" % (LOCS[loc], "first" if first else "afterwards"))
+    with notrace():
+        m = new_model("PR")
+        Bs = m.new_space("Bs")
+        P = m.new_space("P", bases=Bs, formula="lambda n: None")
+        P.new_cells("rd", formula="lambda: x")
+        PC = P.new_space("PC")
+        PC.new_cells("rd", formula="lambda: x")
+        Sub = m.new_space("Sub", bases=P, formula="lambda n: None")
+        holder = (P, PC, Bs, None)[loc]
+        Cx = m.new_space("Cx")
+        Cx.new_cells("x", formula="lambda: 1")          # a cells named x, created BEFORE the model-level reference (which it then hides)
+        if first:
+            m.x = w
+        if holder is not None:
+            holder.x = v
+        if not first:
+            m.x = w
+    cur = v
+    for step in range(2):
+        if step == 1:
+            if follow == 0 or holder is None:
+                return True
+            label(FOLLOW[follow])
+            if follow == 1:
+                holder.x = v2
+                cur = v2
+            else:
+                del holder.x
+                cur = None
+        exp = {"P": cur if (loc in (0, 2) and cur is not None) else w, "PC": cur if (loc == 1 and cur is not None) else w}
+        views = [("P", P, "P"), ("P.PC", PC, "PC"), ("Sub", Sub, "P"), ("P[1]", P[1], "P"), ("P[1].PC", P[1].PC, "PC"), ("Sub[2]", Sub[2], "P"), ("Sub[2] again", Sub(2), "P")]
+        for nm, sp, key in views:
+            if True:
+                a = call(lambda: sp.x)
+                b = call(lambda: sp.refs["x"])
+                c = call(lambda: sp.cells["rd"]())
+                with notrace():
+                    once = list(dir(sp)).count("x") == 1
+                want = exp[key]
+                for how, r in (("attribute access", a), ("refs[...]", b), ("a formula", c)):
+                    if not check(r[0] == "ok" and r[1] == want, "%s: x seen through %s is the space-level value when there is one, else the model-level one" % (nm, how), lambda: (r, want)):
+                        return False
+                if not check(once, "%s: dir() lists x exactly once" % nm):
+                    return False
+        if step == 0:
+            # a cells named like the model-level reference (it hides it): spaces deriving it can be created / extended
+            if True:
+                n1 = call(m.new_space, "Nx", bases=Cx)
+                ex = m.new_space("Ex")
+                n2 = call(ex.add_bases, Cx)
+                if not check(n1[0] == "ok" and n2[0] == "ok", "deriving a space whose cells is named like a model-level reference is legal", lambda: (n1, n2)):
+                    return False
+                with notrace():
+                    kinds = (type(m.Nx.x).__name__, type(ex.x).__name__, "x" in m.Nx._own_refs, "x" in ex._own_refs)
+                if not check(kinds == ("Cells", "Cells", False, False), "in the deriving spaces the name denotes the derived cells only", lambda: kinds):
+                    return False
+    return True
+
+
+QUERIES.append(
+    Query("precedence", precedence, pre=["0 <= loc <= 3", "0 <= follow <= 2"],
+          partitions=lambda tier, seed: [dict(loc=l_, first=f_) for l_ in range(4) for f_ in (False, True)],
+          natives=[dict(v=5, w=9, v2=7, loc=l_, first=f_, follow=fo_) for (l_, f_, fo_) in ((0, True, 1), (1, False, 2), (2, True, 2), (3, True, 0), (0, False, 2), (2, False, 1))],
+          bounds=lambda tier: {"placement": LOCS, "order": ["model-level first", "space-level first"], "follow_up": FOLLOW, "views": "P, P.PC, Sub(P), P[1], P[1].PC, Sub[2]",
+                               "values": "model-level w, space-level v, v2: unbounded symbolic ints (the check is v-vs-w as a solver query)"},
+          outside=["names that are also cells or child spaces (the history query)", "ItemSpaces nested in ItemSpaces"]))
 BUDGET = {"quick": 420, "thorough": 1200}
